@@ -51,6 +51,7 @@ const REQ_TEMPLATES: &[(&[u8], &[u32])] = &[
     (b"PUT /x HTTP/1.1\nA: \x80\xff obs\n\n", &[0]),
     (b"GET / HTTP/1.1\r\n \r\n", &[16, 0]),
     (b"GET / HTTP/1.1\r\n\t\r\nA: b\r\n\r\n", &[16, 80]),
+    (b"GET /t HTTP/1.1\r\nhost: a\r\ntransfer-encoding: chunked\r\nt: 1\r\n\r\n", &[0, 64]),
 ];
 
 const RESP_TEMPLATES: &[(&[u8], &[u32])] = &[
@@ -69,6 +70,7 @@ const RESP_TEMPLATES: &[(&[u8], &[u32])] = &[
     (b"HTTP/1.1 200 OK\r\nA: b\r\n bad\x01fold\r\nC: d\r\n\r\n", &[34, 2, 32]),
     (b"HTTP/1.1 204 No Content\r\nLong-Header-Name-For-Blocks: a-value-that-is-longer-than-thirty-two-bytes-for-avx2 \t \r\nB: c\r\n\r\n", &[0, 2]),
     (b"HTTP/1.1 200 OK\r\n \r\n", &[16, 0, 18]),
+    (b"HTTP/1.1 200 OK\r\ncontent-type: text/plain\r\ntransfer-encoding: chunked\r\nte: x\r\n\r\n", &[0, 2, 3, 34]),
     (b"HTTP/1.1 200 OK\r\nA: b\r\n", &[2]),
 ];
 
@@ -117,6 +119,12 @@ fn g1_template(out: &mut Out, rng: &mut Rng, kind: &str, t: &[u8], cfgs: &[u32],
                 for _ in 0..4 {
                     v.push(rng.below(256) as u8);
                 }
+                // "confusable" values of the byte that is there: single-bit flips (case folds, high-bit
+                // aliases, control-byte aliases of digits) and its numeric neighbours
+                let o = t[p];
+                v.extend_from_slice(&[o ^ 0x20, o ^ 0x80, o ^ 0x40, o ^ 0x10, o ^ 0x08, o ^ 0x01, o.wrapping_add(1), o.wrapping_sub(1), o & 0x7f, o | 0x20]);
+                v.sort_unstable();
+                v.dedup();
                 v
             };
             for &b in &values {
@@ -442,6 +450,25 @@ fn g3(out: &mut Out, rng: &mut Rng, thorough: bool) -> io::Result<()> {
             }
         }
     }
+    // long tokens (>= 128 bytes): stop bytes at and around multiples of 32
+    for &len in &[128usize, 130, 161, 200, 260] {
+        for p in (0..len).step_by(16).flat_map(|m| vec![m, m + 1, m + 15]).filter(|&p| p < len) {
+            for &b in &[0x00u8, 0x7f, 0x0d, 0x0a, 0x20, 0x09, 0x1f] {
+                let mut h = b"A: ".to_vec();
+                let at = h.len();
+                h.extend((0..len).map(|i| b'a' + (i % 26) as u8));
+                h[at + p] = b;
+                h.extend_from_slice(b"\r\nB: c\r\n\r\n");
+                line(out, "hdrs", 0, 3, &h)?;
+                let mut r = b"GET /".to_vec();
+                let at = r.len();
+                r.extend((0..len).map(|i| b'a' + (i % 26) as u8));
+                r[at + p] = b;
+                r.extend_from_slice(b" HTTP/1.1\r\n\r\n");
+                line(out, "req", 0, 1, &r)?;
+            }
+        }
+    }
     // all 1000 status codes and a few non-codes
     for c in 0..1000 {
         let s = format!("HTTP/1.1 {:03} X\r\n\r\n", c);
@@ -586,6 +613,31 @@ fn g8(out: &mut Out, rng: &mut Rng, thorough: bool) -> io::Result<()> {
             }
         }
     }
+    // long inputs (grouped / unrolled vector loops): one or two offending bytes at and around every
+    // multiple of 8, for lengths around 128, 160, 256 and 300
+    for backend in 0..4u8 {
+        for class in 0..3u8 {
+            if (backend == 1 || backend == 2) && class == 2 { continue; }
+            for &len in &[127usize, 128, 129, 130, 159, 160, 161, 192, 255, 256, 257, 300] {
+                let base: Vec<u8> = (0..len).map(|i| fill[i % 4]).collect();
+                writeln!(out, "scan {} {} 0 {}", backend, class, hex(&base))?;
+                let mut pos: Vec<usize> = Vec::new();
+                for m in (0..len).step_by(8) { for d in [0usize, 1, 7] { if m + d < len { pos.push(m + d); } } }
+                for &p in &pos {
+                    for &b in &[0x00u8, 0x7f, 0x20, 0x0a, 0x0d, 0x3a, 0x09] {
+                        let mut s = base.clone();
+                        s[p] = b;
+                        writeln!(out, "scan {} {} 0 {}", backend, class, hex(&s))?;
+                        if thorough || p % 32 == 0 {
+                            let q = rng.below(len);
+                            s[q] = 0x7f;
+                            writeln!(out, "scan {} {} 0 {}", backend, class, hex(&s))?;
+                        }
+                    }
+                }
+            }
+        }
+    }
     Ok(())
 }
 
@@ -680,6 +732,19 @@ fn g_entries(out: &mut Out, rng: &mut Rng, count: usize) -> io::Result<()> {
                 writeln!(out, "respall {} {} {}", cfg, cap, hex(t))?;
                 for cut in (0..t.len()).step_by(3) {
                     writeln!(out, "respall {} {} {}", cfg, cap, hex(&t[..cut]))?;
+                }
+            }
+        }
+    }
+    // many minimal header lines (3-byte `x:\n`, 4-byte `x:\r\n` / `x:y\n`) at exactly-fitting capacities
+    for k in (0..48usize).step_by(3).chain([15usize, 16, 19, 20, 31, 32, 33].iter().cloned()) {
+        for line in [&b"x:\n"[..], b"x:\r\n", b"x:y\n", b"ab: c\r\n"] {
+            for (kind, start) in [("reqall", &b"GET / HTTP/1.1\n"[..]), ("respall", &b"HTTP/1.1 200\n"[..]), ("respall", &b"HTTP/1.1 200 OK\r\n"[..])] {
+                let mut s = start.to_vec();
+                for _ in 0..k { s.extend_from_slice(line); }
+                s.extend_from_slice(b"\n");
+                for cap in [k, k + 1] {
+                    writeln!(out, "{} 0 {} {}", kind, cap, hex(&s))?;
                 }
             }
         }
